@@ -1,7 +1,7 @@
 SPECIFICATION Spec
 CONSTANTS
   Names = {1, 2, 3}
-  MaxEnv = 8
+  MaxEnv = 10
   MaxInc = 3
   MaxRaise = 1
 INVARIANT NoViolation
